@@ -27,7 +27,7 @@ ASSURANCE = {
     'C10': 'Oracle: tee pulls nothing at construction; the source is pulled exactly once per element and (invariant at every scheduler step) never more than buffer_size+2 elements beyond the slowest fork; each fork yields the same elements and ends the same way as the source (same failure at the same position); no fork waits forever for another (deadlock / no-progress verdict), for every relative speed and stop pattern of the forks and a failing source.',
     'C11': 'Fault = which worker (leaf, index) fails to initialise, in which enter/exit cycle; workload histories incl. abandoned bulky streams. Oracle: enter raises that error and leaves no thread/process; exit returns within bounded virtual time with all library threads and simulated processes gone; the same object works again (backlog 0 on re-entry, reference answers). Every fail site of every generated tree is enumerated over the runs.',
     'C12': 'Fault = how the target ends: return, raise (classes incl. unpicklable / multi-arg), sys.exit(codes), kill at arbitrary points incl. mid-message. Oracle: result/exception/exitcode/join/done/wait report exactly that outcome and never hang.',
-    'C13': 'Reference model of per-object reference counts over creation, copying, pickling to children, nesting, drop and GC in parent and (simulated) child processes, with connection faults. Oracle: hosted object alive iff the model says some proxy refers to it; destroyed exactly once after the last goes.',
+    'C13': 'Reference model of per-object reference counts over creation, copying, pickling to children, nesting, drop and GC in parent and (simulated) client/child processes; GC and finalizer timing, client-process exits and thread switches chosen by the seed. Oracle: hosted object alive iff the model says some proxy refers to it; destroyed exactly once after the last goes.',
     'C14': 'Oracle: results, attribute access and state changes through a proxy equal the same operations on a local twin; errors are raised in the caller (not returned) with class, args and server-side traceback text; with concurrent callers in several threads / (simulated) processes no update is lost or duplicated, per-process order is preserved and the final state equals the reference; managed() results behave as proxies.',
     'C16': 'Same generated workload run through the sync and the async variant under independent schedules. Oracle: identical outputs, failures and submission side-effects.',
     'C17': 'Oracle over the history of an IterableQueue shared by n suppliers and m consumers (threads and simulated processes): every item delivered exactly once and none left behind, every consumer iteration ends after the last supplier finished, renew() resets for a clean next round, a stop request raises StopRequested in blocked parties within the polling interval.',
